@@ -5,6 +5,8 @@ open Lean Proto JediModel.Caches
 
 /-! Driver for C08.  One request = one whole process history:
 `{"op":"history","cfg":{…overrides…},"steps":[{"t":"script","key":null|"p","text":n,"ptime":null|n},
+  (answer of a script step: the item under the key, whether it was replaced, whether parso was asked
+  (`remembered = none`), the Script's node identity, the current text)
   {"t":"lookup","k":"d:name"}, {"t":"sig","pos":n,"matched":b,"k":".."}, {"t":"tick","dt":n}, {"t":"gc"}]}`
 Texts are numbers (equal number ⇔ equal text); `parse = id`; a lookup returns the number of the
 text it was computed on, so the answer names the version of the buffer it belongs to. -/
@@ -30,7 +32,8 @@ def cfgOf (j : Json) : Cfg :=
     sigCachesUnmatched := b "sigCachesUnmatched" base.sigCachesUnmatched,
     memoPerScript := b "memoPerScript" base.memoPerScript, scriptCache := b "scriptCache" base.scriptCache,
     diffCache := b "diffCache" base.diffCache,
-    validity := (optNat j "validity").getD base.validity }
+    validity := (optNat j "validity").getD base.validity,
+    treeMemo := (optNat j "treeMemo").getD base.treeMemo }
 
 def itemJson (st : St) (key : Option String) : Json :=
   match st.parser.get? key with
@@ -46,13 +49,15 @@ def stepJson (cfg : Cfg) (st : St) (j : Json) : St × Json :=
   | "script" =>
     let key := optStr j "key"
     let old := st.parser.get? key
+    -- is parso asked at all by this construction (`false`: a remembered node object is used)
+    let asked := (remembered cfg st key (nat j "text")).isNone
     let st' := script cfg P st key (nat j "text") (optNat j "ptime")
     let new := st'.parser.get? key
     let replaced := match old, new with
       | some a, some b => a.gen != b.gen
       | none, some _ => true
       | _, _ => false
-    (st', jobj [("item", itemJson st' key), ("new_item", jbool replaced),
+    (st', jobj [("item", itemJson st' key), ("new_item", jbool replaced), ("asked", jbool asked),
                 ("obj", jopt jnat (st'.cur.map (·.obj))), ("cur", jopt jnat (curLines st'))])
   | "lookup" =>
     -- observed below the per-Script memo: replay with an empty memo
@@ -99,7 +104,7 @@ def handle (j : Json) : Json :=
     let c := JediModel.Gen.C08.cfg
     jobj [("keyOnTree", jbool c.keyOnTree), ("sigKeyFresh", jbool c.sigKeyFresh),
           ("sigCachesUnmatched", jbool c.sigCachesUnmatched), ("memoPerScript", jbool c.memoPerScript), ("scriptCache", jbool c.scriptCache),
-          ("diffCache", jbool c.diffCache), ("validity", jnat c.validity)]
+          ("diffCache", jbool c.diffCache), ("validity", jnat c.validity), ("treeMemo", jnat c.treeMemo)]
   | op => jobj [("error", jstr ("unknown op " ++ op))]
 
 def main : IO Unit := Proto.run handle
